@@ -12,7 +12,9 @@ RULE = ("record sets of 0-13 (thorough: up to 70, beyond the default limits) rec
         "and non-numeric values), 1-5 columns: repeated fields, fixed widths 0-8, ranges incl. min=max and huge "
         "max, break-by marks, enum columns in modifiers none/full/val/name, multi-line titles, header / footer "
         "absent, empty, short or longer than the table, record limits via fmt or via argument: (0,0) (1,1) (2,0) "
-        "(0,3) (2,2) (5,5) (1,0) (3,1) or '*'. An independent layout model checks every line: equal visible "
+        "(0,3) (2,2) (5,5) (1,0) (3,1) or '*'; a quarter of the tables is printed again after another table was built from "
+        "its format object (with own limits / skip_columns), a quarter after its record list grew or shrank. "
+        "An independent layout model checks every line: equal visible "
         "width, border shape, separators of title and record rows at the '+' columns (by position), widths within "
         "bounds, every cell = its full text padded on either side or text[:w-d]+dots, break and skipped lines, "
         "first-n / last-m lines shown and announced + shown == total, records in order, header and footer lines. "
@@ -47,8 +49,10 @@ def gen_case(rng, big=False):
     header = rng.choice([None, None, "H", "", "a very long header " * 3])
     footer = rng.choice([None, None, "", "f", "footer " * 6])
     titles = {f: rng.choice(T.TITLES_POOL[f]) for f in T.FIELDS}
+    later = rng.choice([None, None, 'derive', 'grow'])
     return dict(recs=recs, fmt=fmt, cols=cols, limits=limits, lim_arg=lim_arg, header=header, footer=footer,
-                titles=titles)
+                titles=titles, later=later, grow_by=rng.choice([1, 1, -1]),
+                extra_recs=T.gen_records(rng, (1, 3, 6)))
 
 
 def judge(ctx, c, case):
@@ -72,6 +76,45 @@ def judge(ctx, c, case):
         ctx.violation(mech, dict(detail, fmt=c['fmt']), case)
     if problems:
         return
+    # ---- the table stays what it is while other tables are built from its format object
+    step = c.get('later')
+    if step == 'derive':
+        ctx.count("tables_reprinted_after_a_derived_table")
+        try:
+            t2 = PPTable(c['recs'][:3] or [(1, "b", 2, "d")], fmt_obj=t.fmt, limits=(1, 0),
+                         skip_columns=[cols[0]['field']] if len({x['field'] for x in cols}) > 1 else None)
+            T.render(t2)
+            again = T.render(t).split("\n")
+        except Exception as err:
+            ctx.violation("table-raises", {"type": type(err).__name__, "msg": str(err)[:200], "step": step}, case)
+            return
+        if again != lines:
+            ctx.violation("table-changed-by-a-table-built-from-its-format-object",
+                          {"before": lines[:8], "after": again[:8]}, case)
+            return
+    elif step == 'grow' and c['footer'] is not None:
+        # the record list the table was built on grows / shrinks later: every print accounts for
+        # the records it has at that moment (explicit footers only: the default footer text is
+        # composed when the table is created)
+        ctx.count("tables_reprinted_after_record_list_changed")
+        recs2 = c['recs']
+        if c.get('grow_by', 0) >= 0:
+            recs2.extend(c['extra_recs'])
+        else:
+            del recs2[len(recs2) // 2:]
+        try:
+            lines2 = T.render(t).split("\n")
+        except Exception as err:
+            ctx.violation("table-raises", {"type": type(err).__name__, "msg": str(err)[:200], "step": step}, case)
+            return
+        eff2 = eff_limits
+        if c['lim_arg'] is None and c['limits'] is None and not c['fmt'].endswith(";*") and len(recs2) > 25:
+            eff2 = None
+        problems = T.check_layout(lines2, recs2, cols, eff2, c['header'], c['footer'], c['titles'])
+        for mech, detail in problems[:3]:
+            ctx.violation(mech, dict(detail, fmt=c['fmt'], step="after the record list changed"), case)
+        if problems:
+            return
     body_has_skip = any(l.startswith("|...") and "skipped" in l for l in lines)
     if body_has_skip:
         ctx.count("tables_with_skipped_records")
@@ -102,4 +145,5 @@ def run_shard(ctx):
 def replay(ctx, case):
     case = dict(case)
     case['recs'] = [tuple(r) for r in case['recs']]
+    case['extra_recs'] = [tuple(r) for r in case.get('extra_recs', [])]
     judge(ctx, case, case)
